@@ -10,6 +10,7 @@ import (
 	"os"
 	"os/exec"
 	"path/filepath"
+	"runtime"
 	"strings"
 	"sync"
 	"time"
@@ -40,6 +41,11 @@ func (vc *VC) script(o *Oblig, prelude string, axioms []string, wantModel bool) 
 
 // scriptMode with stripped=true weakens every assumption by removing its quantified parts (see strip.go).
 func (vc *VC) scriptMode(o *Oblig, prelude string, axioms []string, wantModel bool, stripped bool) (string, bool) {
+	return vc.scriptMode2(o, prelude, axioms, wantModel, stripped, false)
+}
+
+// scriptMode2 with sliced=true (implies stripped) additionally keeps only the assumptions connected to the goal (strip.go).
+func (vc *VC) scriptMode2(o *Oblig, prelude string, axioms []string, wantModel bool, stripped bool, sliced bool) (string, bool) {
 	var b strings.Builder
 	body := &strings.Builder{}
 	for _, d := range vc.decls {
@@ -59,6 +65,9 @@ func (vc *VC) scriptMode(o *Oblig, prelude string, axioms []string, wantModel bo
 				return
 			}
 			kept = append(kept, a)
+			if sliced {
+				return
+			}
 		}
 		body.WriteString("(assert " + a + ")\n")
 	}
@@ -103,10 +112,26 @@ func (vc *VC) scriptMode(o *Oblig, prelude string, axioms []string, wantModel bo
 	if stripped && len(defs) > 0 {
 		// the quantifier-free weakening keeps the ground instances of unary definitions (opaque spec predicates such as
 		// isIdName) at the terms that occur: cvc5 then decides string goals that need the definition
-		for _, inst := range groundInstances(defs, append(kept, stripAssumption("(not "+o.Goal+")")), 200) {
+		for _, inst := range groundInstances(defs, append(append([]string(nil), kept...), stripAssumption("(not "+o.Goal+")")), 200) {
 			if inst != "true" {
-				body.WriteString("(assert " + inst + ")\n")
+				if sliced {
+					kept = append(kept, inst)
+				} else {
+					body.WriteString("(assert " + inst + ")\n")
+				}
 			}
+		}
+	}
+	if sliced {
+		universe := map[string]bool{}
+		for _, d := range vc.decls {
+			f := strings.Fields(d)
+			if len(f) >= 2 && (f[0] == "(declare-fun" || f[0] == "(declare-const") {
+				universe[f[1]] = true
+			}
+		}
+		for _, a := range sliceAssumptions(kept, o.Goal+" "+o.Guard, universe) {
+			body.WriteString("(assert " + a + ")\n")
 		}
 	}
 	body.WriteString("(assert " + o.Guard + ")\n")
@@ -143,7 +168,20 @@ func solversFor(quant bool, tier string) []solverCfg {
 	}
 }
 
+// at most one solver process per core: the time limits are wall-clock, so an oversubscribed machine turns fast
+// proofs into time-outs (the clock of an attempt starts when it gets its slot)
+var procSem = make(chan struct{}, maxInt(4, runtime.NumCPU()))
+
+func maxInt(a, b int) int {
+	if a > b {
+		return a
+	}
+	return b
+}
+
 func runSolver(cfg solverCfg, file string, timeout time.Duration) (status string, out string, ms int64) {
+	procSem <- struct{}{}
+	defer func() { <-procSem }()
 	ctx, cancel := context.WithTimeout(context.Background(), timeout)
 	defer cancel()
 	argv := append([]string{}, cfg.argv[1:]...)
@@ -219,6 +257,27 @@ func (pr *Prover) dischargeInduct(vc *VC, o *Oblig, prelude string, axioms []str
 		v.Output = out
 	}
 	return v
+}
+
+// mentionsStringPred: the goal applies an opaque predicate whose definition is a string fact (isIdName, ...).
+var strPredCache sync.Map // axiom text -> function name or ""
+
+func mentionsStringPred(goal string, axioms []string) bool {
+	for _, a := range axioms {
+		v, ok := strPredCache.Load(a)
+		if !ok {
+			name := ""
+			if d := asUnaryDef(a); d != nil && strings.Contains(d.body.String(), "str.") {
+				name = d.fn
+			}
+			strPredCache.Store(a, name)
+			v = name
+		}
+		if n := v.(string); n != "" && strings.Contains(goal, "("+n+" ") {
+			return true
+		}
+	}
+	return false
 }
 
 type Prover struct {
@@ -333,13 +392,22 @@ func (pr *Prover) discharge(vc *VC, o *Oblig, prelude string, axioms []string) *
 	}
 	stage1 := []attempt{{cfg: cfgs[0], file: file, timeout: t1}}
 	var s1extra []string
-	if quant && o.Kind != "canary" && !containsQuant(o.Goal) && strings.Contains(o.Goal, "str.") {
+	if quant && o.Kind != "canary" && !containsQuant(o.Goal) && (strings.Contains(o.Goal, "str.") || mentionsStringPred(o.Goal, axioms)) {
 		// string obligations: cvc5 on the quantifier-free weakening decides them at once; run it alongside
 		s2, _ := vc.scriptMode(o, prelude, axioms, false, true)
 		f2 := file + ".qf1.smt2"
 		if err := os.WriteFile(f2, []byte(s2), 0o644); err == nil {
 			s1extra = append(s1extra, f2)
 			stage1 = append(stage1, attempt{cfg: solversFor(false, pr.tier)[2], file: f2, stripped: true, timeout: t1})
+		}
+		// ... and on the relevance slice of it
+		s3, _ := vc.scriptMode2(o, prelude, axioms, false, true, true)
+		f3 := file + ".sl1.smt2"
+		if err := os.WriteFile(f3, []byte(s3), 0o644); err == nil {
+			s1extra = append(s1extra, f3)
+			c3 := solversFor(false, pr.tier)[2]
+			c3.name = "cvc5/qf/sliced"
+			stage1 = append(stage1, attempt{cfg: c3, file: f3, stripped: true, timeout: t1})
 		}
 	}
 	proved, sat, errRes := record(runGroup(stage1))
